@@ -112,13 +112,16 @@ def ensure_built(need_release=False):
 
 
 # ----------------------------------------------------------------------------- native runs
-def native(scenario, shape, values=None, seed=None, profile='debug', timeout=60):
+def native(scenario, shape, values=None, seed=None, profile='debug', timeout=60, delay_seed=None):
     cmd = [os.path.join(HARNESS, 'target', profile, 'replay'), scenario, ','.join(str(x) for x in shape),
            ','.join(str(v) for v in values) if values else '-']
     if seed is not None:
         cmd += ['--random', str(seed)]
+    env = dict(os.environ)
+    if delay_seed is not None:
+        env['VERIF_DELAY_SEED'] = str(delay_seed)
     try:
-        r = subprocess.run(cmd, stdout=subprocess.PIPE, stderr=subprocess.PIPE, text=True, timeout=timeout)
+        r = subprocess.run(cmd, stdout=subprocess.PIPE, stderr=subprocess.PIPE, text=True, timeout=timeout, env=env)
     except subprocess.TimeoutExpired:
         return {'code': 'timeout', 'out': '', 'err': ''}
     out = {'code': r.returncode, 'out': r.stdout, 'err': r.stderr[-2000:]}
@@ -440,6 +443,8 @@ def run_check(prop, spec, tier, seed):
             inconclusive.append('%s: vacuity witnesses never reached: %s' % (sc['name'], missing))
 
     # ---- replay candidates natively (debug, then release)
+    threaded = {sc['name'] for sc in spec['scenarios'] if sc.get('threads')}
+    stress_runs = 150
     if need_replay:
         ensure_built(need_release=True)
     os.makedirs(os.path.join(ROOT, 'evidence', 'replays'), exist_ok=True)
@@ -449,12 +454,23 @@ def run_check(prop, spec, tier, seed):
     nrep = 0
     for scn, shp, what, vals in need_replay:
         v = [x for _, x in vals]
-        nd = native(scn, shp, v, profile='debug')
-        nr = native(scn, shp, v, profile='release')
         def confirms(n):
             if what.startswith('check:'):
                 return n['code'] == 3 and n.get('failed') == what[6:]
+            if what.startswith('panic:DEADLOCK'):
+                return n['code'] == 'timeout'
             return n['code'] == 101 or n['code'] == 'timeout'
+        nd = native(scn, shp, v, profile='debug')
+        nr = native(scn, shp, v, profile='release')
+        if scn in threaded and not (confirms(nd) or confirms(nr)):
+            # schedule-dependent: stress replay with delay injection at the library's sync points
+            for attempt in range(1, stress_runs + 1):
+                nd = native(scn, shp, v, profile='debug', delay_seed=attempt * 7919, timeout=20)
+                if confirms(nd):
+                    break
+                nr = native(scn, shp, v, profile='release', delay_seed=attempt * 104729, timeout=20)
+                if confirms(nr):
+                    break
         cd, cr = confirms(nd), confirms(nr)
         rec = {'property': prop, 'scenario': scn, 'shape': shp, 'what': what, 'values': vals, 'native_debug': {'code': nd['code'], 'failed': nd.get('failed'), 'panic': nd.get('panic')},
                'native_release': {'code': nr['code'], 'failed': nr.get('failed'), 'panic': nr.get('panic')},
